@@ -134,7 +134,17 @@ Lemma create_account_view : forall v c a,
   /\ (clean_ok c -> clean_ok (g_create_account c a)).
 Proof.
   intros. unfold g_create_account. cbn [absg_core a_accs].
-  destruct (g_objs c a) as [p|] eqn:E; (split; [rewrite absg_core_set; reflexivity|apply clean_set]).
+  destruct (g_objs c a) as [p|] eqn:E.
+  - split.
+    + change (mkGcore (upd (g_objs c) a (Some (mkGobj 0 (g_bal p) 0 zf zf false))) (g_dirty c) (g_side c))
+        with (mkGcore (g_objs (g_set c a (mkGobj 0 (g_bal p) 0 zf zf false))) (g_dirty c) (g_side (g_set c a (mkGobj 0 (g_bal p) 0 zf zf false)))).
+      rewrite (absg_core_dirty v _ (g_dirty c) (g_dirty (g_set c a (mkGobj 0 (g_bal p) 0 zf zf false)))).
+      change (mkGcore _ _ _) with (g_set c a (mkGobj 0 (g_bal p) 0 zf zf false)).
+      rewrite absg_core_set. reflexivity.
+    + intros H b ob Hb Hm. cbn [g_objs g_dirty] in *. unfold upd in Hb. destruct (b =? a) eqn:Eb.
+      * inversion Hb; subst. cbn. split; reflexivity.
+      * exact (H b ob Hb Hm).
+  - split; [rewrite absg_core_set; reflexivity|apply clean_set].
 Qed.
 
 (* ------------------------------------------------------------------ Finalise *)
